@@ -62,7 +62,12 @@ type contractEnv struct {
 }
 
 func newContractEnv(t *rapid.T, minActors, maxActors int) *contractEnv {
-	ver := config.ConsensusVerson(rapid.SampledFrom([]int{11, 10, 12, 9, 11, 10, 12}).Draw(t, "consensusVersion"))
+	return newContractEnvAt(t, minActors, maxActors, []int{11, 10, 12, 9, 11, 10, 12})
+}
+
+// newContractEnvAt: the consensus version is drawn from the given list.
+func newContractEnvAt(t *rapid.T, minActors, maxActors int, versions []int) *contractEnv {
+	ver := config.ConsensusVerson(rapid.SampledFrom(versions).Draw(t, "consensusVersion"))
 	fresh := rapid.IntRange(0, 3).Draw(t, "configBuiltForVersion") < 2 // else: version-9 nodes upgraded in place
 	if ver == config.ConsensusV9 {
 		fresh = true
@@ -234,6 +239,14 @@ func (e *contractEnv) poolDesc(r *sim.Replica) string {
 			if a := attachments.ParseCallContractAttachment(tx); a != nil {
 				fmt.Fprintf(&sb, ",method=%q", a.Method)
 			}
+		}
+		if tx.Type == types.DeployContractTx {
+			if a := attachments.ParseDeployContractAttachment(tx); a != nil && len(a.Code) > 0 {
+				fmt.Fprintf(&sb, ",wasm code=%d bytes", len(a.Code))
+			}
+		}
+		if tx.AmountOrZero().Sign() > 0 && (tx.Type == types.CallContractTx || tx.Type == types.DeployContractTx) {
+			fmt.Fprintf(&sb, ",amount=%v", tx.Amount)
 		}
 		sb.WriteString(")")
 	}
